@@ -13,7 +13,7 @@
 //     machines: Run returns an error, no Worker.Run RPC is ever made, and
 //     Worker.Compile is attempted at most once per machine and invocation.
 // (c) FuncLocationsDiff on all pairs of lists of length <= 4 over {a,b,c}.
-// (d) see dag.go.
+// (d) see dag.go. (f) see fresh.go.
 package main
 
 import (
@@ -44,7 +44,8 @@ import (
 var childFlag = flag.Bool("c16child", false, "internal: run as decode/compile server (child process)")
 var bFlag = flag.String("c16b", "", "internal: run one part-(b) scenario in this (child) process: fn;machines;val,val,...")
 var dFlag = flag.String("c16d", "", "internal: run one part-(d) scenario in this (child) process")
-var onlyFlag = flag.String("only", "", "only run parts: any of a,b,c,d,e")
+var fFlag = flag.String("c16f", "", "internal: run one part-(f) sequence over {Q,R} in this (child) process")
+var onlyFlag = flag.String("only", "", "only run parts: any of a,b,c,d,e,f")
 
 // ---- cases of part (a) ---------------------------------------------------------------
 
@@ -376,6 +377,10 @@ func main() {
 	}
 	if *dFlag != "" {
 		dagChildMain(*dFlag)
+		return
+	}
+	if *fFlag != "" {
+		freshChildMain(*fFlag)
 		return
 	}
 	vsys.Quiet()
@@ -827,6 +832,37 @@ func main() {
 		cov["c_exhaustive_within_bound"] = fmt.Sprintf("all ordered pairs of lists of length <= %d over {a,b,c}", maxLen)
 	}
 
+	// ---------------- (f) ----------------
+	if want("f") {
+		maxLen := 5
+		if r.Thorough() {
+			maxLen = 7
+		}
+		seqs := freshSequences(maxLen)
+		results := make([]freshResult, len(seqs))
+		errs := make([]error, len(seqs))
+		ev.Parallel(len(seqs), 16, func(i int) { results[i], errs[i] = runFresh(seqs[i]) })
+		var queriesAfterReg, failed int
+		for i, res := range results {
+			if errs[i] != nil {
+				failed++
+				r.NotExhaustive("(f) " + errs[i].Error())
+				continue
+			}
+			evaluations++
+			nontrivial++
+			queriesAfterReg += len(res.Lens)
+			outcomes.Add(fmt.Sprintf("f:lens=%v", res.Lens))
+			for _, v := range res.Viol {
+				p := strings.SplitN(v, "|", 2)
+				col.add(4000000+i, p[0], p[1], map[string]interface{}{"sequence": "Q " + seqs[i], "answers_len": res.Lens})
+			}
+		}
+		cov["f_sequences"] = len(seqs)
+		cov["f_queries_checked"] = queriesAfterReg
+		cov["f_rule"] = fmt.Sprintf("every word over {Q = FuncLocations(), R = create one more Func} of length <= %d in which a query follows a registration, after an initial query; one fresh child process per word (the registry is process-global); each answer must list exactly the Funcs registered so far, and its diff against the initial list must be empty exactly when nothing was registered", maxLen)
+	}
+
 	var sigs []string
 	for s := range col.first {
 		sigs = append(sigs, s)
@@ -847,7 +883,7 @@ func main() {
 	cov["distinct_nontrivial"] = nontrivial
 	cov["distinct_outcomes"] = outcomes.Distinct()
 	cov["outcomes"] = outcomes.Keys()
-	cov["rule"] = "(a) the cross product of per-type argument domains for 19 registered Funcs, including Funcs with repeated parameter types (int, string, float64, []int, map, struct, *struct, interface{}, user interface, bigslice.Slice, *exec.Result; zero values, typed/untyped nil, interfaces holding each registered concrete type, results and nested results), x machine combiners off/on: one evaluation per real decode and per worker view (in-process, child process); (b) one evaluation per cluster run of an unencodable argument list (designed kinds + one representative of every class the codec rejected in (a)) x {1,2} machines; (c) one evaluation per ordered pair of lists; (d) one evaluation per end-to-end cluster run of an invocation whose Result arguments form a DAG (10 shapes x clusters growing to 1,2,3,6 machines x rounds), the last invocation placed on freshly started machines; (e) the same cells with one transient network error on the k-th Worker.Compile RPC. distinct_nontrivial = (d) runs in which the last invocation was compiled on a machine that had compiled none of its dependencies + (e) cells in which the injected fault fired + distinct argument lists (by Func and canonical description) that were transported and verified on a worker + cluster runs in which the encode failure actually occurred + pairs with a non-empty diff"
+	cov["rule"] = "(a) the cross product of per-type argument domains for 19 registered Funcs, including Funcs with repeated parameter types (int, string, float64, []int, map, struct, *struct, interface{}, user interface, bigslice.Slice, *exec.Result; zero values, typed/untyped nil, interfaces holding each registered concrete type, results and nested results), x machine combiners off/on: one evaluation per real decode and per worker view (in-process, child process); (b) one evaluation per cluster run of an unencodable argument list (designed kinds + one representative of every class the codec rejected in (a)) x {1,2} machines; (c) one evaluation per ordered pair of lists; (d) one evaluation per end-to-end cluster run of an invocation whose Result arguments form a DAG (10 shapes x clusters growing to 1,2,3,6 machines x rounds), the last invocation placed on freshly started machines; (e) the same cells with one transient network error on the k-th Worker.Compile RPC; (f) one evaluation per query/registration word (fresh process each). distinct_nontrivial = (f) words + (d) runs in which the last invocation was compiled on a machine that had compiled none of its dependencies + (e) cells in which the injected fault fired + distinct argument lists (by Func and canonical description) that were transported and verified on a worker + cluster runs in which the encode failure actually occurred + pairs with a non-empty diff"
 	r.Finish(cov)
 }
 
